@@ -96,9 +96,6 @@ impl TreeCtx {
             None => false,
         }
     }
-    pub fn committed(&self, leaf: &[u8]) -> bool {
-        self.leaves.iter().any(|l| l == leaf)
-    }
     pub fn false_claims(&self, m: &ProofM) -> Vec<(u64, Bytes)> {
         m.inner_leaves.iter().filter(|(p, l)| !self.claim_true(*p, &l.hash)).map(|(p, l)| (*p, l.hash.clone())).collect()
     }
@@ -464,12 +461,7 @@ pub fn witness_shape(ctx: &TreeCtx, m: &ProofM) -> &'static str {
         .iter()
         .enumerate()
         .any(|(i, (p, l))| !used[i] && !ctx.claim_true(*p, &l.hash));
-    let used_false = m
-        .inner_leaves
-        .iter()
-        .enumerate()
-        .any(|(i, (p, l))| used[i] && !ctx.claim_true(*p, &l.hash));
-    if unused_false && !used_false {
+    if unused_false {
         return "entry with a duplicated position is skipped by verification but still listed";
     }
     if m.inner_proof_size != ctx.mmr.size() {
@@ -484,6 +476,11 @@ pub fn witness_shape(ctx: &TreeCtx, m: &ProofM) -> &'static str {
     });
     if shifted {
         return "bytes moved across the boundary of sibling leaves (leaves are concatenated unhashed, without length)";
+    }
+    if false_claims.iter().all(|(_, l)| ctx.leaves.iter().any(|c| c == l)) {
+        // e.g. the leaf of the last, single-leaf peak presented at the left position of the
+        // neighbouring peak: bagging H(right peak || left peak) equals an inner merge H(left || right)
+        return "committed leaf accepted at a position other than its own (peak bagging is indistinguishable from an inner merge)";
     }
     "other"
 }
@@ -519,7 +516,8 @@ pub fn real_verdict(p: &MKProof, committed_root: &[u8], mon: &mut Monitor, tag: 
 /// the violation signature), `detail` the concrete mutator (goes into counters / replay).
 pub fn judge(ctx: &TreeCtx, m: &ProofM, class: &str, mon: &mut Monitor) -> Verdict {
     mon.eval();
-    mon.count(&format!("b:mutator:{class}"));
+    let cc = crate::viol::counter_class(class);
+    mon.count(&format!("b:mutator:{cc}"));
     let bytes = m.encode();
     let p = match catch(|| MKProof::from_bytes(&bytes)) {
         Ok(Ok(p)) => p,
@@ -553,23 +551,22 @@ pub fn judge(ctx: &TreeCtx, m: &ProofM, class: &str, mon: &mut Monitor) -> Verdi
         if false_claims.is_empty() {
             if class != "identity" {
                 mon.count("b:verifies_but_claims_true");
-                mon.count(&format!("b:verifies_but_claims_true:{class}"));
+                mon.count(&format!("b:verifies_but_claims_true:{cc}"));
             }
         } else {
             let (pos, leaf) = &false_claims[0];
             let vouched = p.contains(&[MKTreeNode::new(leaf.clone())]).is_ok();
             let shape = witness_shape(ctx, m);
-            mon.violation(
-                &format!("C09 MKProof verifies against the committed root but lists a non-committed (position, leaf): {shape}"),
-                &format!(
+            if shape == "other" && std::env::var("VERIF_DEBUG").is_ok() {
+                eprintln!("OTHER-SHAPE class={class} n={} size={} proof={} false={:?}", ctx.n(), ctx.mmr.size(), m.to_json(), false_claims.iter().map(|(p, l)| (p, hex::encode(l))).collect::<Vec<_>>());
+            }
+            crate::viol::report(mon, &format!("C09 MKProof verifies against the committed root but lists a non-committed (position, leaf): {shape}"), || format!(
                     "MKProof::verify = Ok and root() equals the committed root of {} leaves, yet the proof lists (position {pos}, leaf 0x{}) which is not the committed leaf at that position (MKProof::contains on that leaf = {}); mutation class {class}",
                     ctx.n(),
                     hex::encode(leaf),
                     if vouched { "Ok" } else { "Err" }
-                ),
-                json!({"kind": "mkproof", "tree": ctx.to_json(), "proof": m.to_json(), "class": class, "witness_shape": shape,
-                       "false_claims": false_claims.iter().map(|(p, l)| json!([p, hex::encode(l)])).collect::<Vec<_>>()}),
-            );
+                ), || json!({"kind": "mkproof", "tree": ctx.to_json(), "proof": m.to_json(), "class": class, "witness_shape": shape,
+                       "false_claims": false_claims.iter().map(|(p, l)| json!([p, hex::encode(l)])).collect::<Vec<_>>()}));
         }
         // `contains` may only succeed for leaves the proof lists
         let mut pool: Vec<Bytes> = ctx.leaves.iter().take(24).cloned().collect();
@@ -579,11 +576,7 @@ pub fn judge(ctx: &TreeCtx, m: &ProofM, class: &str, mon: &mut Monitor) -> Verdi
             let listed = mirrored.contains(&x);
             let ok = p.contains(&[MKTreeNode::new(x.clone())]).is_ok();
             if ok && !listed {
-                mon.violation(
-                    "C09 MKProof::contains succeeds for a leaf the verified proof does not list",
-                    &format!("contains(0x{}) = Ok although the proof does not cover that leaf", hex::encode(&x)),
-                    json!({"kind": "mkproof", "tree": ctx.to_json(), "proof": m.to_json(), "class": class}),
-                );
+                crate::viol::report(mon, "C09 MKProof::contains succeeds for a leaf the verified proof does not list", || format!("contains(0x{}) = Ok although the proof does not cover that leaf", hex::encode(&x)), || json!({"kind": "mkproof", "tree": ctx.to_json(), "proof": m.to_json(), "class": class}));
             }
             if !ok && listed {
                 mon.count("b:contains_err_on_listed_leaf");
@@ -600,19 +593,11 @@ pub fn honest(ctx: &TreeCtx, tree: &Tree, sel: &[usize], mon: &mut Monitor) -> O
     let proof = match catch(|| tree.compute_proof(&nodes)) {
         Ok(Ok(p)) => p,
         Ok(Err(e)) => {
-            mon.violation(
-                "C09 MKTree::compute_proof fails for committed leaves",
-                &format!("compute_proof error: {e}"),
-                json!({"kind": "mkproof-gen", "tree": ctx.to_json(), "selection": sel}),
-            );
+            crate::viol::report(mon, "C09 MKTree::compute_proof fails for committed leaves", || format!("compute_proof error: {e}"), || json!({"kind": "mkproof-gen", "tree": ctx.to_json(), "selection": sel}));
             return None;
         }
         Err(p) => {
-            mon.violation(
-                "C09 MKTree::compute_proof panics for committed leaves",
-                &p,
-                json!({"kind": "mkproof-gen", "tree": ctx.to_json(), "selection": sel}),
-            );
+            crate::viol::report(mon, "C09 MKTree::compute_proof panics for committed leaves", || p.to_string(), || json!({"kind": "mkproof-gen", "tree": ctx.to_json(), "selection": sel}));
             return None;
         }
     };
@@ -630,36 +615,24 @@ pub fn honest(ctx: &TreeCtx, tree: &Tree, sel: &[usize], mon: &mut Monitor) -> O
     expect.sort();
     got.sort();
     if m.inner_root.hash != ctx.root || got != expect || m.inner_proof_size != ctx.mmr.size() {
-        mon.violation(
-            "C09 generated MKProof disagrees with the reference MMR (root / positions / size)",
-            &format!(
+        crate::viol::report(mon, "C09 generated MKProof disagrees with the reference MMR (root / positions / size)", || format!(
                 "root equal: {}, entries equal: {}, mmr_size {} vs reference {}",
                 m.inner_root.hash == ctx.root,
                 got == expect,
                 m.inner_proof_size,
                 ctx.mmr.size()
-            ),
-            json!({"kind": "mkproof-gen", "tree": ctx.to_json(), "selection": sel, "proof": m.to_json()}),
-        );
+            ), || json!({"kind": "mkproof-gen", "tree": ctx.to_json(), "selection": sel, "proof": m.to_json()}));
     }
     // completeness
     mon.eval();
     match catch(|| proof.verify()) {
         Ok(Ok(())) => {}
         other => {
-            mon.violation(
-                "C09 honest MKProof rejected",
-                &format!("verify on a freshly generated proof: {other:?}"),
-                json!({"kind": "mkproof", "tree": ctx.to_json(), "proof": m.to_json(), "class": "identity"}),
-            );
+            crate::viol::report(mon, "C09 honest MKProof rejected", || format!("verify on a freshly generated proof: {other:?}"), || json!({"kind": "mkproof", "tree": ctx.to_json(), "proof": m.to_json(), "class": "identity"}));
         }
     }
     if proof.contains(&nodes).is_err() {
-        mon.violation(
-            "C09 honest MKProof does not contain its own leaves",
-            "contains(selected leaves) = Err",
-            json!({"kind": "mkproof", "tree": ctx.to_json(), "proof": m.to_json(), "class": "identity"}),
-        );
+        crate::viol::report(mon, "C09 honest MKProof does not contain its own leaves", || "contains(selected leaves) = Err".to_string(), || json!({"kind": "mkproof", "tree": ctx.to_json(), "proof": m.to_json(), "class": "identity"}));
     }
     Some(m)
 }
@@ -774,11 +747,7 @@ pub fn gen_leaves(rng: &mut ChaCha20Rng, n: usize, style: u64, tag: &str) -> Vec
 pub fn run_selection(ctx: &TreeCtx, tree: &Tree, sel: &[usize], exhaustive: bool, pairs: usize, rng: &mut ChaCha20Rng, mon: &mut Monitor) {
     let Some(m) = honest(ctx, tree, sel, mon) else { return };
     if judge(ctx, &m, "identity", mon) != Verdict::Accepted {
-        mon.violation(
-            "C09 honest MKProof rejected after the bincode round trip",
-            "from_bytes(to_bytes(proof)).verify() is not Ok or its root differs from the reference root",
-            json!({"kind": "mkproof", "tree": ctx.to_json(), "proof": m.to_json(), "class": "identity"}),
-        );
+        crate::viol::report(mon, "C09 honest MKProof rejected after the bincode round trip", || "from_bytes(to_bytes(proof)).verify() is not Ok or its root differs from the reference root".to_string(), || json!({"kind": "mkproof", "tree": ctx.to_json(), "proof": m.to_json(), "class": "identity"}));
     }
     if mon.wants_sample() && sel.len() >= 2 && ctx.n() >= 5 {
         mon.sample(json!({"part": "b", "tree_leaves": ctx.n(), "selection": sel, "honest_proof": m.to_json(),
